@@ -9,5 +9,6 @@ CONSTANTS
   MCTopos <- AllTopos
   AsIs = FALSE
 CONSTRAINT Bound
+ACTION_CONSTRAINT NoRetrieve
 INVARIANTS TypeOK D1 D2 D3 D4File D4Disc NoCrash KeysAgree D5
 CHECK_DEADLOCK FALSE
